@@ -95,8 +95,8 @@ M=[
   """                    unsafe {
                         cache.update_if_local(ptr.as_ref(), reloader.as_ref());
                     }
-                    answers.notify(token);""",
-  """                    answers.notify(token);
+                    answers.0.notify(token);""",
+  """                    answers.0.notify(token);
                     unsafe {
                         cache.update_if_local(ptr.as_ref(), reloader.as_ref());
                     }"""),
@@ -228,8 +228,8 @@ M=[
         };
 """),
  ("c08_answer_wrong_token","C08","src/hot_reloading/mod.rs",
-  """        let mut token = self.condvar.wait_while(guard, |t| *t != Some(token));""",
-  """        let mut token = self.condvar.wait_while(guard, |t| t.is_none());"""),
+  """            *t != Some(token) && !self.stopped.load(Ordering::Acquire)""",
+  """            t.is_none() && !self.stopped.load(Ordering::Acquire)"""),
 ]
 def sh(cmd, cwd=WT):
     r=subprocess.run(cmd,shell=True,cwd=cwd,capture_output=True,text=True)
